@@ -822,6 +822,14 @@ pub fn f7_curated() -> Vec<Def> {
     // dot
     mk(true, vec![Pat::regex(".", 0).prio(1), Pat::regex("ab", 0)]);
     mk(false, vec![Pat::regex(".", 0).prio(1), Pat::regex("ab", 0)]);
+    // an enum without any pattern at all (no leaves): every byte is an error
+    {
+        let mut d = Def::new("X", "F7", true);
+        d.variants.push(VarKind::Unit);
+        out.push(d.clone());
+        d.utf8 = false;
+        out.push(d);
+    }
     for (i, d) in out.iter_mut().enumerate() {
         d.name = format!("X{i}");
     }
@@ -856,9 +864,10 @@ pub fn f9_callbacks(rng: &mut Rng, name: &str) -> Def {
 /// Attach recording callbacks of every supported return type to an existing definition.
 pub fn f9_decorate(rng: &mut Rng, mut def: Def) -> Def {
     def.family = "F9".into();
-    def.error = match rng.below(3) {
+    def.error = match rng.below(4) {
         0 => ErrKind::Unit,
         1 => ErrKind::Custom,
+        2 => ErrKind::CustomCbInline,
         _ => ErrKind::CustomCb,
     };
     // keep keyword lexers small
